@@ -165,6 +165,7 @@ def client(pm, fmt):
 
 
 def run_item(item):
+    item.cross_check = True      # thorough tier: discharged obligations are re-decided by cvc5
     pm = load_repo()
     prm = item.params
     fmt = prm["fmt"]
